@@ -10,6 +10,6 @@ CHECKS['C16'] = {
     'assumptions': [],
     'units': [
         unit('choose', 'dispatchcloud_c16', '^TestVerifC16Choose$', {'shards': 8, 'checks': 3000}, {'shards': 16, 'checks': 200000, 'timeout': 1500}),
-        unit('order', 'scheduler_c16', '^TestVerifC16Order$', {'shards': 8, 'checks': 3000}, {'shards': 16, 'checks': 200000, 'timeout': 1500}),
+        unit('order', 'scheduler_c16', '^TestVerifC16Order', {'shards': 8, 'checks': 3000}, {'shards': 16, 'checks': 200000, 'timeout': 1500}),
     ],
 }
